@@ -1,8 +1,9 @@
 import N0Verif.Py.Basic
 import N0Verif.Proto
 /-!
-  Model of `n0struct_xml.n0xml` (n0struct_xml.py, with fix patches C18-a, C18-b and C18-c applied):
-  `_parse_node`, `_get`/`get`, `findall` with its inner `recurse`, `findfirst`, `__contains__`.
+  Model of `n0struct_xml.n0xml` (n0struct_xml.py, with fix patches C18-a, C18-b, C18-c and C18-d
+  applied): `_parse_node`, `_get`/`get`/`get_attrib`, `findall` with its inner `recurse`,
+  `findfirst`, `__contains__`.
 
   The input is the element tree `xml.etree.ElementTree` reports (`Elem`: tag, text, attrib,
   children); the XML parser itself is not modelled.  The step regex of `findall` is replaced by
@@ -132,6 +133,38 @@ def getL : XVal → List Str → PyM (Option XVal)
 /-- `get(xpath: str, default)` -/
 def getS (root : XVal) (xp : Str) : PyM (Option XVal) :=
   if xp.isEmpty then .ok (some root) else getL root (splitPath xp)
+
+/-! ### `get_attrib`: `_get(…, what_to_return='attrib')` -/
+
+/-- the same scan, returning the whole `{'value':…, 'attrib':…}` dictionary of the item -/
+def scanItemsA : List Item → Str → Int → Option (Attr × XVal)
+  | [], _, _ => none
+  | (tag, a, v) :: rest, name, idx =>
+    if tag = name then (if idx = 0 then some (a, v) else scanItemsA rest name (idx - 1))
+    else scanItemsA rest name idx
+
+/-- `_get(ordered_items, xpath: list, default, 'attrib')` for a **non-empty** step list (with an
+empty one the root list has no attributes: `RuntimeError`, outside the model — `Unsupported`).
+The recursion hands `item[1]` (the dictionary) down; with no step left its `'attrib'` is returned. -/
+def getAttrL : XVal → List Str → PyM (Option Attr)
+  | _, [] => .error .Unsupported
+  | v, step :: rest =>
+    match getStep step with
+    | .error e => .error e
+    | .ok (name, idx) =>
+      match v with
+      | .text _ => .ok none
+      | .nodes items =>
+        match scanItemsA items name idx with
+        | none => .ok none
+        | some (a, w) =>
+          match rest with
+          | [] => .ok (some a)
+          | _ :: _ => getAttrL w rest
+
+/-- `get_attrib(xpath: str, default)` (`''`: `RuntimeError`, outside the model) -/
+def getAttrS (root : XVal) (xp : Str) : PyM (Option Attr) :=
+  if xp.isEmpty then .error .Unsupported else getAttrL root (splitPath xp)
 
 /-! ### the step regex of `findall`
 
@@ -350,9 +383,11 @@ def iter (v : XVal) (kids : List Kid) (sought passed : List Str) (any : Nat)
       -- (fix C18-b) only a leaf value is reported in "deepest elements" mode
       .ok (.ret (if any' = 2 ∧ isTextV v then found ++ [(passed, v)] else found) ff)
 
-/-- the code after the `while` loop when `sought_xpath_parts` is empty -/
-def finish (findFirst : Bool) (v : XVal) (passed : List Str) (ff : Bool) : Res :=
-  .ok ⟨some [(passed, v)], if findFirst && !ff then !passed.isEmpty else ff⟩
+/-- the code after the `while` loop when `sought_xpath_parts` is empty
+(fix C18-d: `return found + [(passed, items)]` — what deeper `**` dives matched before a `'..'`
+was resolved at this level is kept) -/
+def finish (findFirst : Bool) (v : XVal) (passed : List Str) (found : List Hit) (ff : Bool) : Res :=
+  .ok ⟨some (found ++ [(passed, v)]), if findFirst && !ff then !passed.isEmpty else ff⟩
 
 def ofLoopOut : LoopOut → Option Res
   | .retNone ff => some (.ok ⟨none, ff⟩)
@@ -369,8 +404,9 @@ def loopEmpty (findFirst : Bool) (v : XVal) (kids : List Kid) (passed : List Str
     | .error e => .error e
     | .ok (.retNone ff') => .ok ⟨none, ff'⟩
     | .ok (.ret found' ff') => .ok ⟨some found', ff'⟩
-    | .ok (.brk _ ff' any') => if any' = 2 then .error .OutOfFuel else finish findFirst v passed ff'
-  else finish findFirst v passed ff
+    | .ok (.brk found' ff' any') =>
+      if any' = 2 then .error .OutOfFuel else finish findFirst v passed found' ff'
+  else finish findFirst v passed found ff
 
 /-- `while sought_xpath_parts or any_xpath == 2: …` followed by the final `return` -/
 def whileLoop (findFirst : Bool) (v : XVal) (kids : List Kid) (passed : List Str) :
